@@ -129,23 +129,28 @@ def sym_int(x=0, base=None):
     # sign and plain digits handled symbolically; everything else (whitespace, underscores,
     # non ASCII digits, prefixes) goes through the host int() on a finite concretisation
     oks = []
-    val = z3.IntVal(0)
+    val = 0
+    digs = []
     plain = len(els) > 0
     for c in els:
         if isinstance(c, str):
             if c in _HEX and builtins.int(c, 16) < b:
-                val = val * b + builtins.int(c, 16)
+                d = builtins.int(c, 16)
             else:
                 plain = False
                 break
         else:
             ok, v = _digit_val_term(c, b)
             oks.append(ok)
-            val = val * b + v
+            d = p._mk(v)
+        digs.append(d)
+        val = val * b + d
     if plain:
         cond = z3.And(oks) if oks else z3.BoolVal(True)
         if e.decide(z3.simplify(cond)):
-            return p._mk(val)
+            if b == 10 and isinstance(val, p.SymInt) and (len(digs) == 1 or not (digs[0] == 0)):
+                val.digits = (False, digs)      # canonical numeral: str() gives the digits back
+            return val
     s = x.conc()  # finite concretisation (Unsupported beyond 256 feasible values per char)
     return builtins.int(s) if base is None else builtins.int(s, base)
 
@@ -190,6 +195,12 @@ def int_to_str(x):
     e = core.CUR
     if e.eval_model is not None:
         return builtins.str(builtins.int(x))
+    if x.digits is not None:
+        neg, ds = x.digits
+        els = ["-"] if neg else []
+        for d in ds:
+            els.append(builtins.chr(48 + d) if isinstance(d, builtins.int) else p.SymChar((d + 48).t))
+        return p.SymNumeral(els, x)
     t = x.t
     neg = e.decide(z3.simplify(t < 0))
     a = -t if neg else t
